@@ -51,9 +51,9 @@ func bc36Shape(streams map[uint32]*stream, ids []uint32) string {
 }
 
 func TestBoundedC36PriorityTree(t *testing.T) {
-	nStreams, maxOps := 4, 3
+	nStreams, maxOps := 4, 1
 	if os.Getenv("GOVC_BOUNDED_TIER") == "thorough" {
-		nStreams, maxOps = 4, 4
+		nStreams, maxOps = 4, 2
 	}
 	var ids []uint32
 	for i := 0; i < nStreams; i++ {
@@ -67,17 +67,61 @@ func TestBoundedC36PriorityTree(t *testing.T) {
 		}
 		ops = append(ops, bc36Op{id: id, close: true})
 	}
+	// start states: EVERY acyclic dependency forest over the streams (each stream's parent is none or another
+	// stream) combined with EVERY subset of streams that has already ended (left the table, still a parent)
+	type start struct {
+		parent []int // index into ids, -1 = none
+		closed int   // bit set
+	}
+	var starts []start
+	par := make([]int, nStreams)
+	var gen func(i int)
+	gen = func(i int) {
+		if i == nStreams {
+			// acyclic?
+			for s := 0; s < nStreams; s++ {
+				p, steps := par[s], 0
+				for p >= 0 {
+					if p == s || steps > nStreams {
+						return
+					}
+					p = par[p]
+					steps++
+				}
+			}
+			for c := 0; c < 1<<nStreams; c++ {
+				starts = append(starts, start{append([]int{}, par...), c})
+			}
+			return
+		}
+		for p := -1; p < nStreams; p++ {
+			if p != i {
+				par[i] = p
+				gen(i + 1)
+			}
+		}
+	}
+	gen(0)
 	cases, distinct, nfail, samples := 0, 0, 0, 0
 	shapes := map[string]bool{}
-	var rec func(seq []bc36Op)
-	rec = func(seq []bc36Op) {
-		// replay the sequence on a fresh forest
-		streams := map[uint32]*stream{}
-		all := map[uint32]*stream{} // every stream object ever created, closed ones included
+	build := func(st start) (map[uint32]*stream, map[uint32]*stream) {
+		streams, all := map[uint32]*stream{}, map[uint32]*stream{}
 		for _, id := range ids {
-			streams[id] = &stream{id: id, state: stateOpen}
-			all[id] = streams[id]
+			all[id] = &stream{id: id, state: stateOpen}
 		}
+		for i, id := range ids {
+			if st.parent[i] >= 0 {
+				all[id].parent = all[ids[st.parent[i]]]
+			}
+			if st.closed&(1<<i) == 0 {
+				streams[id] = all[id]
+			}
+		}
+		return streams, all
+	}
+	var rec func(st start, seq []bc36Op)
+	rec = func(st start, seq []bc36Op) {
+		streams, all := build(st)
 		bad := ""
 		for i, op := range seq {
 			if op.close {
@@ -91,29 +135,33 @@ func TestBoundedC36PriorityTree(t *testing.T) {
 			}
 		}
 		cases++
-		sh := bc36Shape(all, ids)
+		sh := fmt.Sprintf("%s|%d", bc36Shape(all, ids), len(streams))
 		if !shapes[sh] {
 			shapes[sh] = true
 			distinct++
-			if samples < 3 && len(seq) == maxOps && distinct%5 == 0 {
+			if samples < 3 && len(seq) == maxOps && distinct%40 == 0 {
 				samples++
-				fmt.Printf("BOUNDED-SAMPLE operations %v (stream, depends-on, exclusive) -> tree %s: acyclic\n", seq, sh)
+				_, a0 := build(st)
+				fmt.Printf("BOUNDED-SAMPLE tree %s(ended streams: bits %04b) + operations %v (stream, depends-on, exclusive, end) -> tree %s: acyclic\n", bc36Shape(a0, ids), st.closed, seq, bc36Shape(all, ids))
 			}
 		}
 		if bad != "" {
 			nfail++
 			if nfail <= 20 {
-				fmt.Printf("BOUNDED-FAIL id=ops%v :: %s\n", fmt.Sprint(seq), bad)
+				_, a0 := build(st)
+				fmt.Printf("BOUNDED-FAIL id=tree[%s]ended[%04b]ops%v :: %s\n", bc36Shape(a0, ids), st.closed, fmt.Sprint(seq), bad)
 			}
-			return // extensions of a failing sequence fail the same way
+			return
 		}
 		if len(seq) == maxOps {
 			return
 		}
 		for _, op := range ops {
-			rec(append(append([]bc36Op{}, seq...), op))
+			rec(st, append(append([]bc36Op{}, seq...), op))
 		}
 	}
-	rec(nil)
-	fmt.Printf("BOUNDED-CASES n=%d distinct=%d bound=every sequence of 0..%d PRIORITY operations over %d open streams (each operation: a PRIORITY for any stream - depending on the root, on any stream incl. itself, a closed or an unknown stream, exclusive or not - or the end of a stream, which leaves the table but may still be named as a parent), from the parentless forest; distinct = dependency trees reached\n", cases, distinct, maxOps, nStreams)
+	for _, st := range starts {
+		rec(st, nil)
+	}
+	fmt.Printf("BOUNDED-CASES n=%d distinct=%d bound=every acyclic dependency forest over %d streams x every subset of already-ended streams (%d start states) x every sequence of 0..%d operations (a PRIORITY for any stream - depending on the root, on any stream incl. itself, an ended or an unknown stream, exclusive or not - or the end of a stream); distinct = (tree, open streams) pairs reached\n", cases, distinct, nStreams, len(starts), maxOps)
 }
